@@ -1,15 +1,16 @@
 #!/bin/sh
-# usage: seeded_verify.sh <ID> : verify a red-team result in /tmp/mut/<ID> (patch applied there) and /tmp/mut/out_<ID>
+# usage: seeded_verify.sh <ID> : verify a red-team result: patch /tmp/mut/out_<ID>/patch.diff applied to a clean
+# checkout in /tmp/mut/<ID>; suite must stay green, demo must fail with the patch and pass without
 set -u
 P=$1; WT=/tmp/mut/$P; OUT=/tmp/mut/out_$P
 cd $WT || exit 2
-git diff > /tmp/mut/check_$P.diff
+git checkout -q -- . ; git clean -qfd tests src 2>/dev/null
+git apply $OUT/patch.diff || { echo "patch does not apply"; exit 2; }
 echo "== patch: $(git diff --stat | tail -1)"
 echo "== suite with patch:"; cargo test --offline 2>&1 | grep -E "test result|FAILED|error" | sort | uniq -c | head
 echo "== hooks build:"; RUSTFLAGS="--cfg cactusref_verif" cargo build --offline 2>&1 | grep -E "^error|Finished"
 cp $OUT/demo.rs tests/demo_$P.rs
 echo "== demo with patch:"; cargo test --offline --test demo_$P 2>&1 | grep -E "test result|panicked|FAILED|signal|error" | head -5
-git stash -q
+git apply -R $OUT/patch.diff
 echo "== demo without patch:"; cargo test --offline --test demo_$P 2>&1 | grep -E "test result|panicked|FAILED|signal|error" | head -5
-git stash pop -q
 rm tests/demo_$P.rs
